@@ -51,7 +51,7 @@ var positions = exprpos.Positions
 
 func typeFor(pos string, rng interface{ Intn(int) int }) gen.Ty {
 	switch pos {
-	case "where", "join-on", "join-on-nested":
+	case "where", "where-then-lets", "join-on", "join-on-nested":
 		return gen.TBool
 	case "take":
 		return gen.TInt
